@@ -418,6 +418,14 @@ class C01(C.Check):
                 out.append(("rg", ["comp", ["scale", cplx(2), A], ["comp", dv1(d1), ["scale", cplx(4), dv2(d2)]]]))
                 out.append(("rg", ["inv", ["comp", dv1(d1), ["scale", cplx(-2), dv2(d2)]]]))
                 out.append(("rg", ["adj", ["sub", ["comp", A, dv1(d1)], ["scale", cplx(1j), dv2(d2)]]]))
+        # SandwichOperator.make (direct oracle only): scaling buns incl. complex and negative
+        # factors, operator buns, nested sandwiches as cheese
+        buns = [S(2), S(-2), S(1j), S(1 + 1j), S(-0.5, 1), A, ["prim", ["leaf", 1]], D(d2), D(d2, 0, "inv")]
+        cheeses = [D(d1), D(d1, 1), S(4), ["sandwich", A, D(d1)], ["sandwich", S(2j), D(d1)]]
+        for b in buns:
+            for c in cheeses:
+                out.append(("rg", ["sandwich", b, c]))
+                out.append(("rg", ["add", ["sandwich", b, c], D(d2)]))
         return out
 
     def gen(self, ctx):
